@@ -294,6 +294,7 @@ class World:
         if '__post_init__' in cls.attrs:
             src += '    self.__post_init__()\n'
         names = [n for n, _d in fields]
+        cls.attrs['__dataclass_fields__'] = K(tuple(names))
         if not (isinstance(opts.get('eq'), K) and opts['eq'].v is False):
             tup = '(%s)' % ''.join('%%s.%s, ' % n for n in names)
             src += ('def __eq__(self, other):\n'
